@@ -118,6 +118,28 @@ fn conversions(c: &mut Cat) {
         )*};
     }
     fl!(i8, i16, I24, i32, I48, i64, u8, u16, U24, u32, U48, u64);
+    // the arithmetic operators and constructors of the custom-width types themselves (in-range
+    // operands and results; nothing else in the library ever multiplies two samples)
+    macro_rules! custom_ops {
+        ($($T:ty: $R:ty),*) => {$(
+            c.entry(concat!("types::", stringify!($T), " new / From / + - * / comparison"), |i| {
+                let a = <$T>::new(((i * 7) % 23 + 2) as $R).unwrap();
+                let b = <$T>::new(3 as $R).unwrap();
+                let (hi, lo) = if a > b { (a, b) } else { (b, a) };
+                bb(hi + lo);
+                bb(hi - lo);
+                bb(a * b);
+                bb(<$T>::new(bb(a.inner())));
+                bb(<$T>::from(bb(a.inner())));
+                bb(a == b);
+                bb(a.cmp(&b));
+            });
+        )*};
+    }
+    {
+        use dasp_sample::types::{I11, I20, U11, U20};
+        custom_ops!(I24: i32, I48: i64, U24: i32, U48: i64, I11: i16, I20: i32, U11: i16, U20: i32);
+    }
     c.entry("conv::f32<->f64 + float sample ops", |i| {
         bb(amp(i).to_sample::<f32>());
         bb(famp(i).to_sample::<f64>());
